@@ -190,10 +190,17 @@ class Interp:
         try:
             if isinstance(fnode, ast.Lambda):
                 return self.eval(fnode.body)
+            is_gen = any(isinstance(n, (ast.Yield, ast.YieldFrom)) for n in ast.walk(fnode))
+            if is_gen:
+                frame.yields = []
             try:
                 self.exec_block(fnode.body)
             except ReturnSig as r:
-                return r.value
+                if not is_gen:
+                    return r.value
+            if is_gen:
+                # generators are evaluated eagerly: sound for consumers that exhaust them at the call site
+                return ListV(frame.yields)
             return NONE
         finally:
             self.depth -= 1
@@ -496,6 +503,14 @@ class Interp:
                     return BoolV(False)
             left = right
         return res
+
+    def ex_Yield(self, node):
+        v = self.eval(node.value) if node.value is not None else NONE
+        fr = self.frame
+        if not hasattr(fr, "yields"):
+            self.unsupported(node, "yield outside generator")
+        fr.yields.append(v)
+        return NONE
 
     def ex_Lambda(self, node):
         return LambdaV(node, dict(self.frame.env), self.frame.module, self.frame.cls)
